@@ -4,6 +4,7 @@ import RsModel.Lemmas.CombInner
 import RsModel.Lemmas.ModeLeaves
 import RsModel.Lemmas.CombTables
 import RsModel.Lemmas.CombCompose
+import RsModel.Lemmas.CombComposeL
 /-!
 # C09 — combined source maps compose outer and inner attribution
 (the pass-through and removal branches; the composition through the inner map is tied by correspondence)
@@ -382,6 +383,46 @@ theorem c09_names (t : Text) (sm : SMap) (n : Text) (os : Option Text) (im : SMa
                   ∧ ((annSC (streamSM Tin im ⟨true, false⟩).evs)[o'.src]?).map (·.2) = some (some c)
                   ∧ nm = origTextAt (splitLines c) o'.line y.col nm.length) :=
   streamCombined_names t sm n os im rm Tin h1 h2 honce hTin ha hl hs hseg
+
+/-! ## columns = false -/
+
+/-- **C09, composition, whole stream, columns = false** ((file, line) granularity).  Every chunk of the combined stream comes from one
+chunk of the outer map's line-granular stream, with the same text at the same generated position.  When that outer chunk points
+into the inner source at a line `L` of the inner text: if the inner map has a mapped segment on generated line `L` — the first one,
+`p` = (source index, original line) — a mapped delivered chunk names the file the inner map's own stream announces under `p.1`, at
+original line `p.2`; otherwise the chunk is unmapped when removal is requested, and else names the inner source itself at the outer
+location. -/
+theorem c09_stream_compose_lines (t : Text) (sm : SMap) (n : Text) (os : Option Text) (im : SMap) (rm : Bool) (Tin : Text)
+    (h1 : MapIdxOK sm) (h2 : MapIdxOK im) (honce : OnceInner n (smSourceEvs sm))
+    (hTin : ∀ k c, Ev.source k n c ∈ smSourceEvs sm → (os.or c).getD [] = Tin)
+    (hs : sortedFrom 1 0 (decode im.mappings)) :
+    ∀ t' mm, Ev.chunk t' mm ∈ (streamCombined t sm n os im rm ⟨false, false⟩).evs →
+      ∃ m, Ev.chunk t' m ∈ (streamSM t sm ⟨false, false⟩).evs ∧ mm.gl = m.gl ∧ mm.gc = m.gc ∧
+        ∀ a, m.orig = some a → (annS (streamSM t sm ⟨false, false⟩).evs)[a.src]? = some n → 1 ≤ a.line → a.line ≤ (splitLines Tin).length →
+          (∀ p, lookupLines (decode im.mappings) a.line = some p → ∀ y, mm.orig = some y →
+              (annS (streamCombined t sm n os im rm ⟨false, false⟩).evs)[y.src]? = (annS (streamSM Tin im ⟨false, false⟩).evs)[p.1]?
+              ∧ p.1 < (annS (streamSM Tin im ⟨false, false⟩).evs).length ∧ y.line = p.2)
+          ∧ (lookupLines (decode im.mappings) a.line = none →
+              (rm = true → mm.orig = none)
+              ∧ ∀ y, mm.orig = some y → (annS (streamCombined t sm n os im rm ⟨false, false⟩).evs)[y.src]? = some n ∧ y.line = a.line ∧ y.col = a.col) :=
+  streamCombined_composeL t sm n os im rm Tin h1 h2 honce hTin hs
+
+/-- contents, columns = false -/
+theorem c09_contents_lines (t : Text) (sm : SMap) (n : Text) (os : Option Text) (im : SMap) (rm : Bool) (Tin : Text)
+    (h1 : MapIdxOK sm) (h2 : MapIdxOK im) (honce : OnceInner n (smSourceEvs sm))
+    (hTin : ∀ k c, Ev.source k n c ∈ smSourceEvs sm → (os.or c).getD [] = Tin) :
+    ∀ i s cc, Ev.source i s cc ∈ (streamCombined t sm n os im rm ⟨false, false⟩).evs →
+      (∃ j, Ev.source j s cc ∈ (streamSM t sm ⟨false, false⟩).evs ∧ s ≠ n)
+      ∨ (s = n ∧ ∃ k c, Ev.source k n c ∈ (streamSM t sm ⟨false, false⟩).evs ∧ cc = os.or c)
+      ∨ (∃ j, Ev.source j s cc ∈ (streamSM Tin im ⟨false, false⟩).evs) :=
+  streamCombined_contentsL t sm n os im rm Tin h1 h2 honce hTin
+
+/-- names, columns = false: dropped -/
+theorem c09_names_lines (t : Text) (sm : SMap) (n : Text) (os : Option Text) (im : SMap) (rm : Bool) (Tin : Text)
+    (h1 : MapIdxOK sm) (h2 : MapIdxOK im) (honce : OnceInner n (smSourceEvs sm))
+    (hTin : ∀ k c, Ev.source k n c ∈ smSourceEvs sm → (os.or c).getD [] = Tin) :
+    ∀ t' mm, Ev.chunk t' mm ∈ (streamCombined t sm n os im rm ⟨false, false⟩).evs → ∀ y, mm.orig = some y → y.name = none :=
+  streamCombined_namesL t sm n os im rm Tin h1 h2 honce hTin
 
 /-- non-vacuity: the hypotheses hold for the witness of F15 (outer sources `abc`, `in.js`; inner map `KAAA` over `"hello world"`) -/
 example : OnceInner [105, 110, 46, 106, 115]
